@@ -121,7 +121,7 @@ def abstract_listeners(calls, universe, items):
     return ncount, nbad
 
 
-def obs_record(exc, result, calls, universe, case, value_of=None):
+def obs_record(exc, result, calls, universe, case, value_of=None, coll=None, asked=None):
     n = len(case["entries"])
     vf = value_of or (lambda j, k: read_value(j))
     if exc is not None:
@@ -129,7 +129,62 @@ def obs_record(exc, result, calls, universe, case, value_of=None):
     else:
         res = abstract_result(result, universe, n, vf)
     ncount, nbad = abstract_listeners(calls, universe, case["items"])
-    return {"exc": exc is not None, "res": res, "ncount": ncount, "nbad": nbad}
+    inv = {v: k for k, v in universe.items()}
+    return {"exc": exc is not None, "res": res, "ncount": ncount, "nbad": nbad,
+            "collSame": True if coll is None else coll.same(),
+            "asked": sorted({inv.get(tuple(x), 0) for x in asked}) if asked is not None else [],
+            "askedChecked": asked is not None}
+
+
+# ------------------------------------------------------------------ the caller's request collection
+READ_COLLS = {"ip": ["set", "list", "tuple", "frozenset", "dict_keys", "generator"],
+              "coap": ["list", "tuple", "set", "frozenset", "dict_keys"],      # iterated twice: no one-shot iterables
+              "ffl": ["set", "frozenset"]}
+WRITE_COLLS = {"ip": ["list", "tuple", "set", "frozenset", "dict_keys", "generator"],
+               "coap": ["list", "tuple"],                                        # indexed by position
+               "ble": ["list", "tuple", "dict_keys", "generator"]}              # written in iteration order
+
+
+class Coll:
+    """One caller-side collection object, handed to call after call."""
+
+    def __init__(self, typ: str, tuples):
+        self.typ = typ
+        self.orig = list(tuples)
+        self.base = list(tuples)
+        if typ == "list":
+            self.obj = self.base
+        elif typ == "tuple":
+            self.obj = tuple(tuples)
+        elif typ == "set":
+            self.obj = set(tuples)
+        elif typ == "frozenset":
+            self.obj = frozenset(tuples)
+        elif typ == "dict_keys":
+            self.d = {t: None for t in tuples}
+            self.obj = self.d.keys()
+        elif typ == "generator":
+            self.obj = None          # a generator is one-shot: the caller makes a new one from its list each time
+        else:
+            raise ValueError(typ)
+
+    def arg(self):
+        if self.typ == "generator":
+            return (t for t in self.base)
+        return self.obj
+
+    def content(self):
+        if self.typ == "generator":
+            return list(self.base)
+        if self.typ in ("set", "frozenset"):
+            return sorted(self.obj, key=repr)
+        return list(self.obj)
+
+    def original(self):
+        return sorted(self.orig, key=repr) if self.typ in ("set", "frozenset") else list(self.orig)
+
+    def same(self):
+        return self.content() == self.original()
 
 
 # ------------------------------------------------------------------ IP
@@ -227,26 +282,46 @@ class IpSession:
             self.pairing.restore_accessories_state(ip_accessories(pm), 1, None)
             self.perm_key = key
 
-    def run_case(self, case, variant):
+    @staticmethod
+    def tuples(case):
+        if case["op"] == "write":
+            return [(*U_IP[k], written_value(k)) for k in case["items"]]
+        return [U_IP[k] for k in case["items"]]
+
+    def _asked(self):
+        if len(self.requests) != 1:
+            return None
+        method, target, body = self.requests[0]
+        try:
+            if method == "GET":
+                return [tuple(int(x) for x in s.split(".")) for s in target.split("=", 1)[1].split(",") if s]
+            return [(c["aid"], c["iid"]) for c in json.loads(body)["characteristics"]]
+        except Exception:  # noqa: BLE001
+            return [(0, 0)]
+
+    def run_case(self, case, variant, coll=None):
         self.set_perms(case)
         st, body, _ = ip_reply(case, variant)
         self.reply = (st, body)
         del self.calls[:]
         del self.requests[:]
+        coll = coll or Coll("list", self.tuples(case))
+        before = coll.content()
         exc = result = None
         try:
             if case["op"] == "write":
-                result = self.run(self.pairing.put_characteristics(
-                    [(*U_IP[k], written_value(k)) for k in case["items"]]))
+                result = self.run(self.pairing.put_characteristics(coll.arg()))
             else:
-                result = self.run(self.pairing.get_characteristics([U_IP[k] for k in case["items"]]))
+                result = self.run(self.pairing.get_characteristics(coll.arg()))
         except Exception as ex:  # noqa: BLE001
             exc = ex
         self.loop.settle()
-        rec = obs_record(exc, result, list(self.calls), U_IP, case)
+        rec = obs_record(exc, result, list(self.calls), U_IP, case, coll=coll, asked=self._asked())
         detail = {"http": st, "body": body.decode(), "returned": repr(result) if exc is None else None,
                   "raised": f"{type(exc).__name__}: {exc}" if exc is not None else None,
-                  "listener_calls": [repr(c) for c in self.calls], "requests_seen": len(self.requests)}
+                  "listener_calls": [repr(c) for c in self.calls], "requests_seen": len(self.requests),
+                  "collection": coll.typ, "collection_before": repr(before), "collection_after": repr(coll.content()),
+                  "collection_original": repr(coll.original())}
         healthy = exc is None and self.pairing.is_connected and len(self.requests) == 1
         return rec, detail, healthy
 
@@ -261,20 +336,27 @@ class IpSession:
             vloop.close_loop(self.loop)
 
 
-def ffl_case(case, variant):
+def ffl_case(case, variant, coll=None):
     """format_characteristic_list called directly (with or without the requested set)."""
     from aiohomekit.controller.ip.pairing import format_characteristic_list
     _, _, body = ip_reply(case, variant - (variant % 16 == 7))
-    req = {U_IP[k] for k in case["items"]} if case["reqKnown"] else None
+    if case["reqKnown"] and coll is None:
+        coll = Coll("set", [U_IP[k] for k in case["items"]])
+    if not case["reqKnown"]:
+        coll = None
+    before = coll.content() if coll else None
     exc = result = None
     try:
-        result = format_characteristic_list(copy.deepcopy(body), req)
+        result = format_characteristic_list(copy.deepcopy(body), coll.arg() if coll else None)
     except Exception as ex:  # noqa: BLE001
         exc = ex
-    rec = obs_record(exc, result, [], U_IP, case)
-    detail = {"body": json.dumps(body), "requested": sorted(req) if req else None,
+    rec = obs_record(exc, result, [], U_IP, case, coll=coll)
+    detail = {"body": json.dumps(body), "requested": repr(before),
               "returned": repr(result) if exc is None else None,
-              "raised": f"{type(exc).__name__}: {exc}" if exc is not None else None}
+              "raised": f"{type(exc).__name__}: {exc}" if exc is not None else None,
+              "collection": coll.typ if coll else "none", "collection_before": repr(before),
+              "collection_after": repr(coll.content()) if coll else "None",
+              "collection_original": repr(coll.original()) if coll else "None"}
     return rec, detail
 
 
@@ -416,7 +498,12 @@ class CoapSession:
         self.seen.append(pdus)
         out = b""
         case = self.case
-        for pos, (opcode, tid, iid, body) in enumerate(pdus):
+        iids = [U_PDU[k][1] for k in case["items"]]
+        for opcode, tid, iid, body in pdus:
+            if iid not in iids:
+                out += struct.pack("<BBBH", 0x02, tid, 4, 0)          # invalid instance id
+                continue
+            pos = iids.index(iid)
             e = case["entries"][pos]
             k = e["k"]
             if e["t"] == "val":
@@ -428,7 +515,7 @@ class CoapSession:
         self.acc_send_ctr += 1
         return Message(code=Code.CHANGED, payload=enc)
 
-    def run_case(self, case, variant):
+    def run_case(self, case, variant, coll=None):
         pm = {k: p for k, p in zip(case["items"], case["perms"])}
         key = tuple(sorted(pm.items()))
         if key != self.perm_key:
@@ -437,26 +524,36 @@ class CoapSession:
         self.case = case
         del self.calls[:]
         del self.seen[:]
+        coll = coll or Coll("list", pdu_tuples(case))
+        before = coll.content()
         exc = result = None
         try:
             if case["op"] == "write":
-                result = self.loop.run_until_complete(self.pairing.put_characteristics(
-                    [(*U_PDU[k], PDU_WRITE[k]) for k in case["items"]]))
+                result = self.loop.run_until_complete(self.pairing.put_characteristics(coll.arg()))
             else:
-                result = self.loop.run_until_complete(self.pairing.get_characteristics([U_PDU[k] for k in case["items"]]))
+                result = self.loop.run_until_complete(self.pairing.get_characteristics(coll.arg()))
         except Exception as ex:  # noqa: BLE001
             exc = ex
         calls = [_norm_pdu_call(c) for c in self.calls]
-        rec = obs_record(exc, result, calls, U_PDU, case, value_of=pdu_read_value)
+        asked = [(1, p[2]) for p in self.seen[0]] if len(self.seen) == 1 else None
+        # results are positional: entry j answers the j-th requested characteristic of the case
+        rec = obs_record(exc, result, calls, U_PDU, case, value_of=pdu_read_value, coll=coll, asked=asked)
         detail = {"pdu_statuses": [e["s"] for e in case["entries"]], "returned": repr(result) if exc is None else None,
                   "raised": f"{type(exc).__name__}: {exc}" if exc is not None else None,
-                  "listener_calls": [repr(c) for c in self.calls], "requests_seen": len(self.seen)}
-        healthy = exc is None and self.pairing.is_connected and len(self.seen) == 1 and \
-            [p[2] for p in self.seen[0]] == [U_PDU[k][1] for k in case["items"]]
+                  "listener_calls": [repr(c) for c in self.calls], "requests_seen": len(self.seen),
+                  "collection": coll.typ, "collection_before": repr(before), "collection_after": repr(coll.content()),
+                  "collection_original": repr(coll.original())}
+        healthy = exc is None and self.pairing.is_connected and len(self.seen) == 1
         return rec, detail, healthy
 
     def close(self):
         vloop.close_loop(self.loop)
+
+
+def pdu_tuples(case):
+    if case["op"] == "write":
+        return [(*U_PDU[k], PDU_WRITE[k]) for k in case["items"]]
+    return [U_PDU[k] for k in case["items"]]
 
 
 def _norm_pdu_call(payload):
@@ -561,7 +658,7 @@ class BleSession:
                 return 0
         return s
 
-    def run_case(self, case, variant):
+    def run_case(self, case, variant, coll=None):
         pm = {k: p for k, p in zip(case["items"], case["perms"])}
         key = tuple(sorted(pm.items()))
         if key != self.perm_key:
@@ -571,17 +668,25 @@ class BleSession:
         del self.calls[:]
         del self.seen[:]
         self.client.is_connected = True
+        coll = coll or Coll("list", pdu_tuples(case))
+        before = coll.content()
         exc = result = None
         try:
-            result = self.loop.run_until_complete(self.pairing.put_characteristics(
-                [(*U_PDU[k], PDU_WRITE[k]) for k in case["items"]]))
+            result = self.loop.run_until_complete(self.pairing.put_characteristics(coll.arg()))
         except Exception as ex:  # noqa: BLE001
             exc = ex
         calls = [_norm_pdu_call(c) for c in self.calls]
-        rec = obs_record(exc, result, calls, U_PDU, case)
+        # a call that ran to its end must have asked for every writable requested characteristic
+        asked = None
+        if exc is None:
+            asked = [(1, iid) for _op, iid in self.seen] + \
+                    [U_PDU[k] for k, p in zip(case["items"], case["perms"]) if p == "ro"]
+        rec = obs_record(exc, result, calls, U_PDU, case, coll=coll, asked=asked)
         detail = {"pdu_statuses": [e["s"] for e in case["entries"]], "returned": repr(result) if exc is None else None,
                   "raised": f"{type(exc).__name__}: {exc}" if exc is not None else None,
-                  "listener_calls": [repr(c) for c in self.calls], "pdus_seen": list(self.seen)}
+                  "listener_calls": [repr(c) for c in self.calls], "pdus_seen": list(self.seen),
+                  "collection": coll.typ, "collection_before": repr(before), "collection_after": repr(coll.content()),
+                  "collection_original": repr(coll.original())}
         healthy = exc is None or type(exc).__name__ in ("PDUStatusError", "AccessoryDisconnectedError")
         return rec, detail, healthy
 
